@@ -60,14 +60,32 @@ func goid() uint64 {
 // genPar draws the tasks of one concurrent phase.
 func genPar(t *rapid.T, nc, timeoutS int, pick func(string) int, sideOf func(int) bool, side map[int]bool) []ParTask {
 	var out []ParTask
-	loop := false
-	for j, n := 0, rapid.IntRange(2, 4).Draw(t, "par_n"); j < n; j++ {
+	// home takes one global lock around every POST / PUT / DELETE handler, so
+	// the assembled application never runs two modifying admin requests at
+	// once: a phase holds at most one of them (forced refresh, add, set_url,
+	// remove, config), overlapped with the work that is not under that lock —
+	// the updates loop (periodic refresh, engine initialisation) and the
+	// configuration write-out that other components trigger.
+	loop, posted := false, false
+	for j, n := 0, rapid.IntRange(2, 3).Draw(t, "par_n"); j < n; j++ {
 		k := rapid.SampledFrom(parKinds).Draw(t, "par_kind")
 		if k == "periodic" || k == "init" {
 			if loop {
 				k = "refresh" // there is one updates loop
 			}
 			loop = true
+		}
+		switch k {
+		case "refresh", "add", "seturl", "remove", "config":
+			if posted {
+				if loop {
+					k = "writeconf"
+				} else {
+					k, loop = "periodic", true
+				}
+			} else {
+				posted = true
+			}
 		}
 		pt := ParTask{K: k}
 		plan := false
@@ -323,6 +341,19 @@ func (r *run) simulate(tasks []ParTask, order []int, obs []*taskObs, refreshers 
 			if pt.K == "refresh" && o.code != 200 {
 				return s, mm(stAnswer, "api-status", "%s: POST filtering/refresh -> %d %s", who, o.code, o.body)
 			}
+			// A list that a set_url or remove_url of the same phase is about has
+			// changed its identity under the refresh: the refresh drops what it
+			// did for it from its count (the write-back recognises lists by id
+			// and URL), so such a list need not be counted.
+			moved := map[string]bool{}
+			for _, q := range tasks {
+				switch q.K {
+				case "seturl":
+					moved[runURLs[q.U]], moved[runURLs[q.U2]] = true, true
+				case "remove":
+					moved[runURLs[q.U]] = true
+				}
+			}
 			lo, hi := 0, 0
 			for _, l := range s.lists {
 				if !l.enabled || (pt.K == "refresh" && l.white != pt.W) {
@@ -335,6 +366,9 @@ func (r *run) simulate(tasks []ParTask, order []int, obs []*taskObs, refreshers 
 					recs = o.byURL(l.url)
 				}
 				a, b := r.feed(l, recs, false)
+				if moved[l.url] || (l.src != nil && moved[l.src.url]) {
+					a = 0
+				}
 				lo, hi = lo+a, hi+b
 			}
 			if pt.K == "refresh" && (o.updated < lo || o.updated > hi) {
